@@ -455,8 +455,14 @@ def bs_script(cap, rng, nseq, exhaustive_small):
             tot += w
         if s:
             seqs.append(s)
-    for s in seqs:
-        lines.append("bs new")
+    for n, s in enumerate(seqs):
+        # every third sequence is written by a stream opened at a start cursor (the first field of the sequence becomes the offset)
+        at = s[0] if n % 3 == 2 and len(s) >= 2 else None
+        if at is not None:
+            lines.append("bs newat %d" % at)
+            s = s[1:]
+        else:
+            lines.append("bs new")
         vals = []
         for k, w in enumerate(s):
             v = rng.choice(_patterns(w, rng)) if k < len(s) - 1 or not exhaustive_small else None
